@@ -264,7 +264,7 @@ func TestC10(t *testing.T) {
 	vcore.Run(t, "C10", rapid.Custom(func(t *rapid.T) Case { return GenHistory(t, c10Params) }), checkC10)
 }
 
-var c07Params = &HistoryParams{MinOps: 10, MaxOps: 35, Cloud: 0, Episodes: true, Phrases: 20, FaultPct: 25,
+var c07Params = &HistoryParams{MinOps: 10, MaxOps: 35, Cloud: 0, Episodes: true, Phrases: 20, FaultPct: 25, Lag: true,
 	Weights: map[string]int{"create": 22, "sched": 10, "filter": 10, "bind": 6, "poolapi": 12, "poolobj": 4, "delete": 6, "deliver": 6,
 		"unbind": 6, "drop": 0, "reserve": 0, "unreserve": 0, "fipevent": 0, "apirelease": 1, "restart": 0, "episode": 30, "resync": 2,
 		"recreate": 1, "scale": 1, "delwl": 0, "mkwl": 0, "phase": 2, "quiesce": 1},
